@@ -19,7 +19,7 @@ whole family: `T_C04_c2c_wire`, `T_C04_start_wire`, `T_C04_end_wire` (what the c
 copy on any wire), `T_C04_preserved_start_family` / `_end_family` (with the parity theorem: the size sits at the
 end that is the start / end in the orientation of the direction the user chopped), `T_C04_src`, `T_C04_own_computed`.
 -/
-import CBV.Props.C01
+import CBV.Lemmas.C01Core
 import CBV.Lemmas.C04Desc
 import CBV.Lemmas.C04Parity
 import CBV.Lemmas.C04Chop
@@ -33,7 +33,7 @@ theorem T_C04_shared (inp : Inp) (st : St) (h : run inp = .ok st) (w w' : Nat)
     (hw : w < 12 * inp.nBlocks) (hw' : w' < 12 * inp.nBlocks) (hb : w / 12 ≠ w' / 12)
     (hp : samePair inp w w' = true) :
     specEq (specOf st w) (if aligned inp w' w then specOf st w' else invertSpec (specOf st w')) = true := by
-  obtain ⟨hcc, hck⟩ := T_C01_checked inp st h
+  obtain ⟨hcc, hck⟩ := C01_checked inp st h
   have hmem : (inp.coinc w).contains w' = true := by
     unfold coincComplete at hcc
     rw [List.all_eq_true] at hcc
@@ -178,7 +178,7 @@ theorem T_C04_c2c_wire (g : Geo) (id : Nat) (u : UChop) (res : Vals) (n : ℕ) (
     (h : wireVals g id inv w = .ok v) :
     v.count = some n ∧ v.total = some (if inv then 1 / c ^ (n - 1) else c ^ (n - 1)) := by
   obtain ⟨h0, h1⟩ := held_c2c hu hp hr hn hn1 hc hc0
-  have hcp := (C03.T_C03_copy_preserving (ob := obOf u res) rfl hp hn hn1 hc hc0).2.2
+  have hcp := (C03.ForC04.calc_copy_preserving (ob := obOf u res) rfl hp hn hn1 hc hc0).2.2
   cases inv with
   | false =>
     rw [wireVals_eq hu h0] at h
@@ -221,13 +221,13 @@ theorem T_C04_start_wire (g : Geo) (hT : g.tol = C03.T0) (id : Nat) (u : UChop) 
   · intro h
     rw [wireVals_eq hu h0, hT] at h
     obtain ⟨_, _, hcalc⟩ := evalOn_ok h
-    obtain ⟨a1, _, _, _, _, c, a6, a7, a8, _, a10⟩ := C03.T_C03_pair_count_start hcalc
+    obtain ⟨a1, _, _, _, _, c, a6, a7, a8, _, a10⟩ := C03.ForC04.calc_count_start hcalc
     obtain ⟨_, _, _, _, _, _, rfl⟩ := C03.pair_count_start hcalc
     exact ⟨a1, rfl, c, a6, a7, a8, a10⟩
   · intro h
     rw [wireVals_eq hu h1, hT] at h
     obtain ⟨_, _, hcalc⟩ := evalOn_ok h
-    obtain ⟨a1, _, _, _, c, a6, a7, a8, _, a10⟩ := C03.T_C03_pair_count_end hcalc
+    obtain ⟨a1, _, _, _, c, a6, a7, a8, _, a10⟩ := C03.ForC04.calc_count_end hcalc
     obtain ⟨_, _, _, _, _, _, rfl⟩ := C03.pair_count_end hcalc
     exact ⟨a1, rfl, c, a6, a7, a8, a10⟩
 
@@ -248,13 +248,13 @@ theorem T_C04_end_wire (g : Geo) (hT : g.tol = C03.T0) (id : Nat) (u : UChop) (r
   · intro h
     rw [wireVals_eq hu h0, hT] at h
     obtain ⟨_, _, hcalc⟩ := evalOn_ok h
-    obtain ⟨a1, _, _, _, c, a6, a7, a8, _, a10⟩ := C03.T_C03_pair_count_end hcalc
+    obtain ⟨a1, _, _, _, c, a6, a7, a8, _, a10⟩ := C03.ForC04.calc_count_end hcalc
     obtain ⟨_, _, _, _, _, _, rfl⟩ := C03.pair_count_end hcalc
     exact ⟨a1, rfl, c, a6, a7, a8, a10⟩
   · intro h
     rw [wireVals_eq hu h1, hT] at h
     obtain ⟨_, _, hcalc⟩ := evalOn_ok h
-    obtain ⟨a1, _, _, _, _, c, a6, a7, a8, _, a10⟩ := C03.T_C03_pair_count_start hcalc
+    obtain ⟨a1, _, _, _, _, c, a6, a7, a8, _, a10⟩ := C03.ForC04.calc_count_start hcalc
     obtain ⟨_, _, _, _, _, _, rfl⟩ := C03.pair_count_start hcalc
     exact ⟨a1, rfl, c, a6, a7, a8, a10⟩
 
